@@ -717,7 +717,7 @@ func junk(r *hc.RNG, kind string) []byte {
 
 func run(c *hc.Ctx) error {
 	r := c.Rng
-	bt := c.NewBatcher()
+	bt := c.NewC20Batcher()
 	add := bt.Add
 
 	// ---- 1. values: encode, alignment, round-trip with trailing bytes, truncation
